@@ -29,7 +29,10 @@ any alias of an instance is seen through every alias, touches no other field and
 instance, for any conversion), `alloc_zero`, `alloc_inv` (a new instance has exactly the fields of
 its type, at their zero values), `method_on_every_instance` (a method added to the type — also
 after instances exist — is found on every instance and bound to that instance),
-`addMethod_keeps_fields`.
+`addMethod_keeps_fields`. Type objects: `declare_spec` (STRUCT), `addAll_spec`, `sync_spec`
+(a second declaration of a name is MERGED into the first: `Order` only grows, every declared name
+takes the new zero value), `sync_keeps_dropped_field` / `sync_takes_new_value` — the open finding
+`shadowed-local-type-keeps-outer-fields` stated as theorems about the model.
 
 Not proved: `Delete` (backward shift) — the VM never deletes from a field table; it is covered by
 the slot-for-slot correspondence only.
@@ -1236,6 +1239,147 @@ def demoHeap : Heap Nat :=
 example : (demoHeap.setIndex 0 19 (fun _ v => v) 7).map (fun hp => (hp.getIndex 0 19, hp.getIndex 0 3, hp.getIndex 1 19)
     matches (.field 7, .field 0, .field 0)) = some true := by decide
 
+/-! ### the type object: declaration and re-declaration (STRUCT, GLOBALSTRUCT → syncFields → addField) -/
+
+theorem mem_orderAfter (ks : List Int) : ∀ (o : List Int) (k : Int), k ∈ orderAfter o ks ↔ k ∈ o ∨ k ∈ ks := by
+  induction ks with
+  | nil => intro o k; simp [orderAfter]
+  | cons x xs ih =>
+    intro o k
+    unfold orderAfter
+    rw [List.foldl_cons]
+    have := ih (if x ∈ o then o else o ++ [x]) k
+    unfold orderAfter at this
+    rw [this]
+    by_cases hx : x ∈ o
+    · simp only [hx, if_true, List.mem_cons]
+      constructor
+      · rintro (h | h)
+        · exact Or.inl h
+        · exact Or.inr (Or.inr h)
+      · rintro (h | h | h)
+        · exact Or.inl h
+        · exact Or.inl (h ▸ hx)
+        · exact Or.inr h
+    · simp only [hx, if_false, List.mem_append, List.mem_cons, List.mem_nil_iff, or_false]
+      constructor
+      · rintro ((h | h) | h)
+        · exact Or.inl h
+        · exact Or.inr (Or.inl h)
+        · exact Or.inr (Or.inr h)
+      · rintro (h | h | h)
+        · exact Or.inl (Or.inl h)
+        · exact Or.inl (Or.inr h)
+        · exact Or.inr h
+
+/-- the old names keep their places: `Order` only grows at the end -/
+theorem orderAfter_prefix (ks : List Int) : ∀ (o : List Int), ∃ suffix, orderAfter o ks = o ++ suffix := by
+  induction ks with
+  | nil => intro o; exact ⟨[], by simp [orderAfter]⟩
+  | cons x xs ih =>
+    intro o
+    unfold orderAfter
+    rw [List.foldl_cons]
+    obtain ⟨s, hs⟩ := ih (if x ∈ o then o else o ++ [x])
+    unfold orderAfter at hs
+    rw [hs]
+    by_cases hx : x ∈ o
+    · exact ⟨s, by simp [hx]⟩
+    · exact ⟨[x] ++ s, by simp [hx]⟩
+
+/-- **addAll_spec.** Adding fields one by one never fails, keeps the table invariant; `Order` grows
+    by the new names in order of first appearance; every name reads the LAST value given for it,
+    a name that is not among them reads as before. -/
+theorem addAll_spec [Inhabited V] (kvs : List (Int × V)) : ∀ (t : TObj V), Inv t.fields →
+    ∃ t', t.addAll kvs = some t' ∧ Inv t'.fields ∧ t'.order = orderAfter t.order (kvs.map (·.1)) ∧
+      ∀ k, t'.fields.get k = match specGet kvs k with | some v => some v | none => t.fields.get k := by
+  induction kvs with
+  | nil => intro t h; exact ⟨t, rfl, h, rfl, fun k => rfl⟩
+  | cons kv rest ih =>
+    intro t h
+    obtain ⟨f, hs, hinv⟩ := set_total t.fields h kv.1 kv.2
+    have hadd : t.addField kv.1 kv.2 = some { order := if kv.1 ∈ t.order then t.order else t.order ++ [kv.1], fields := f } := by
+      simp [TObj.addField, hs]
+    obtain ⟨t', hf, hinv', hord, hget⟩ := ih { order := if kv.1 ∈ t.order then t.order else t.order ++ [kv.1], fields := f } hinv
+    refine ⟨t', ?_, hinv', ?_, ?_⟩
+    · unfold TObj.addAll at hf ⊢
+      rw [List.foldlM_cons, hadd]
+      exact hf
+    · rw [hord]; simp [orderAfter]
+    · intro k
+      rw [hget k]
+      have hsplit : specGet (kv :: rest) k = match specGet rest k with | some v => some v | none => if kv.1 = k then some kv.2 else none := by
+        unfold specGet
+        rw [List.reverse_cons, List.find?_append]
+        cases hq : rest.reverse.find? (·.1 = k) with
+        | some x => simp
+        | none =>
+          by_cases e : kv.1 = k <;> simp [e]
+      rw [hsplit]
+      cases hr : specGet rest k with
+      | some v => rfl
+      | none =>
+        simp only []
+        by_cases e : kv.1 = k
+        · subst e
+          simp only [if_true]
+          exact (set_get_same t.fields f h kv.1 kv.2 hs).2
+        · simp only [e, if_false]
+          exact set_get_other t.fields f h kv.1 k kv.2 hs (fun h' => e h'.symm)
+
+/-- **sync_spec.** Declaring a type name again merges the new declaration into the old type object -/
+theorem sync_spec [Inhabited V] (prev cur : TObj V) (hp : Inv prev.fields) :
+    ∃ t', prev.sync cur = some t' ∧ Inv t'.fields ∧
+      t'.order = orderAfter prev.order (cur.entries.map (·.1)) ∧
+      ∀ k, t'.fields.get k = match specGet cur.entries k with | some v => some v | none => prev.fields.get k :=
+  addAll_spec cur.entries prev hp
+
+/-- the open finding `shadowed-local-type-keeps-outer-fields`, part 1: a field of the old declaration
+    that the new declaration does not name is still a field, at its old place, with its old value -/
+theorem sync_keeps_dropped_field [Inhabited V] (prev cur t' : TObj V) (hp : Inv prev.fields)
+    (hs : prev.sync cur = some t') (k : Int) (hk : k ∈ prev.order) (hn : ∀ v, (k, v) ∉ cur.entries) :
+    k ∈ t'.order ∧ t'.fields.get k = prev.fields.get k := by
+  obtain ⟨t'', hs', _, hord, hget⟩ := sync_spec prev cur hp
+  rw [hs] at hs'; cases hs'
+  refine ⟨by rw [hord, mem_orderAfter]; exact Or.inl hk, ?_⟩
+  rw [hget k]
+  have : specGet cur.entries k = none := by
+    unfold specGet
+    cases hq : cur.entries.reverse.find? (·.1 = k) with
+    | none => rfl
+    | some x =>
+      have hm := List.mem_of_find?_eq_some hq
+      have hx := List.find?_some hq
+      simp only [decide_eq_true_eq] at hx
+      rw [List.mem_reverse] at hm
+      exact absurd (by rw [← hx]; exact hm) (hn x.2)
+  rw [this]
+
+/-- part 2 (and the legitimate retyping): a field the new declaration names takes the new zero value
+    — in the ONE type object both declarations share -/
+theorem sync_takes_new_value [Inhabited V] (prev cur t' : TObj V) (hp : Inv prev.fields)
+    (hs : prev.sync cur = some t') (k : Int) (v : V) (hk : specGet cur.entries k = some v) :
+    t'.fields.get k = some v := by
+  obtain ⟨t'', hs', _, _, hget⟩ := sync_spec prev cur hp
+  rw [hs] at hs'; cases hs'
+  rw [hget k, hk]
+
+theorem declare_spec [Inhabited V] (decl : List (Int × V)) :
+    ∃ t, TObj.declare decl = some t ∧ Inv t.fields ∧ t.order = orderAfter [] (decl.map (·.1)) ∧
+      ∀ k, t.fields.get k = specGet decl k := by
+  obtain ⟨t, h1, h2, h3, h4⟩ := addAll_spec decl ({ order := [], fields := Goat.IntMap.new decl.length } : TObj V) (new_Inv _)
+  refine ⟨t, h1, h2, h3, fun k => ?_⟩
+  rw [h4 k]
+  cases hq : specGet decl k with
+  | some v => rfl
+  | none =>
+    simp only []
+    cases hg : (Goat.IntMap.new (V := V) decl.length).get k with
+    | none => rfl
+    | some w =>
+      have := (get_iff_res _ (new_Inv (V := V) decl.length) k w).mp hg
+      exact absurd this (mkTable_no_res _ 0 k w)
+
 end Goat.Props.C12
 
 
@@ -1254,3 +1398,10 @@ end Goat.Props.C12
 #print axioms Goat.Props.C12.setIndex_spec
 #print axioms Goat.Props.C12.method_on_every_instance
 #print axioms Goat.Props.C12.addMethod_keeps_fields
+#print axioms Goat.Props.C12.mem_orderAfter
+#print axioms Goat.Props.C12.orderAfter_prefix
+#print axioms Goat.Props.C12.addAll_spec
+#print axioms Goat.Props.C12.sync_spec
+#print axioms Goat.Props.C12.sync_keeps_dropped_field
+#print axioms Goat.Props.C12.sync_takes_new_value
+#print axioms Goat.Props.C12.declare_spec
